@@ -93,7 +93,22 @@ def values_equal(kind, got, want):
         return isinstance(g, list) and len(g) == len(w) and all(same(a, b, False) for a, b in zip(g, w))
     if kind.startswith('dt'):
         return isinstance(got, (int, float)) and same(got, want, False)
-    return got == want
+    if got == want:
+        return True
+    # dense time: the same step function, however equal consecutive samples are merged
+    if not (isinstance(got, list) and isinstance(want, list)) or bool(got) != bool(want):
+        return False
+    if not got:
+        return True
+    try:
+        if got[0][0] != want[0][0] or got[-1][0] != want[-1][0]:
+            return False
+        ts = sorted(set([p[0] for p in got] + [p[0] for p in want]))
+        pts = list(ts) + [(a + b) / 2.0 for a, b in zip(ts, ts[1:])]
+        from ..refsem import step_at
+        return all(same(step_at(got, t), step_at(want, t), False) for t in pts)
+    except Exception:
+        return False
 
 
 def check_lane(case, finding_lane=False):
